@@ -360,6 +360,8 @@ def _inline_site(prog: Program, f: FunctionInfo, body, caller: FunctionInfo, cal
     tmp = None
     if kind == "assign":
         def on_return(v):
+            if isinstance(v, ast.Name) and len(stmt.targets) == 1 and isinstance(stmt.targets[0], ast.Name) and stmt.targets[0].id == v.id:
+                return []  # x = x
             a_ = ast.Assign(targets=[copy.deepcopy(t) for t in stmt.targets], value=v if v is not None else ast.Constant(value=None))
             ast.copy_location(a_, stmt)
             return [a_]
@@ -414,6 +416,53 @@ def _inline_site(prog: Program, f: FunctionInfo, body, caller: FunctionInfo, cal
         ast.fix_missing_locations(s)
 
 
+class _IfExpSplitter(ast.NodeTransformer):
+    """``x = a if c else b``  ->  ``if c: x = a  else: x = b`` (statement level only)."""
+
+    def visit_Assign(self, node: ast.Assign):
+        if isinstance(node.value, ast.IfExp) and len(node.targets) == 1:
+            a = ast.Assign(targets=[copy.deepcopy(node.targets[0])], value=node.value.body)
+            b = ast.Assign(targets=[copy.deepcopy(node.targets[0])], value=node.value.orelse)
+            new = ast.If(test=node.value.test, body=[self.visit(ast.copy_location(a, node))], orelse=[self.visit(ast.copy_location(b, node))])
+            return ast.copy_location(new, node)
+        return node
+
+
+def single_exit_form(fn_node: ast.FunctionDef) -> bool:
+    """Rewrite ``fn_node`` in place so that it has one ``return <name>`` at its end: conditional expressions at statement
+    level become if statements, every ``return e`` becomes an assignment to the result variable (a returned name, or the
+    array a returned subscript selects from), and the statements after an ``if`` holding a return move into the branches
+    that fall through.  Returns False (and leaves the function alone) when the returns are not structured."""
+    body = list(fn_node.body)
+    doc = []
+    if body and isinstance(body[0], ast.Expr) and isinstance(body[0].value, ast.Constant) and isinstance(body[0].value.value, str):
+        doc, body = body[:1], body[1:]
+    rets = [n for n in ast.walk(fn_node) if isinstance(n, ast.Return) and n.value is not None]
+    if not rets or not _structured_returns(body):
+        return False
+    if len(rets) == 1 and isinstance(rets[0].value, ast.Name) and body and body[-1] is rets[0] and not _contains(fn_node, ast.IfExp):
+        return False  # already in the form
+    names = [r.value.id for r in rets if isinstance(r.value, ast.Name)]
+    bases = [r.value.value.id for r in rets if isinstance(r.value, ast.Subscript) and isinstance(r.value.value, ast.Name)]
+    result = (names or bases or [None])[0]
+    if result is None:
+        result = "result_"
+    body = [_IfExpSplitter().visit(s_) for s_ in body]
+
+    def on_return(v):
+        if v is None or (isinstance(v, ast.Name) and v.id == result):
+            return []
+        a = ast.Assign(targets=[ast.Name(id=result, ctx=ast.Store())], value=v)
+        return [ast.copy_location(a, v)]
+
+    flat, _all = _single_exit(body, on_return)
+    last = ast.Return(value=ast.Name(id=result, ctx=ast.Load()))
+    ast.copy_location(last, rets[-1])
+    fn_node.body = doc + flat + [last]
+    ast.fix_missing_locations(fn_node)
+    return True
+
+
 def normalise(prog: Program) -> Tuple[Program, List[str]]:
     """-> (normalised program, names of the helpers that were inlined)."""
     log: List[str] = []
@@ -440,6 +489,17 @@ def normalise(prog: Program) -> Tuple[Program, List[str]]:
             changed = True
         if not changed:
             break
+        trees = {m.relpath: m.tree for m in prog.modules.values()}
+        prog = Program(prog.root, override_trees=trees)
+    # shape normalisation of the candidate filter (the stage recogniser expects one result variable and one exit)
+    try:
+        from .roles import Roles
+
+        ff = Roles(prog).filter_fn
+    except Exception:
+        ff = None
+    if ff is not None and single_exit_form(ff.node):
+        log.append(f"{ff.qualname} (single-exit form)")
         trees = {m.relpath: m.tree for m in prog.modules.values()}
         prog = Program(prog.root, override_trees=trees)
     return prog, log
